@@ -136,6 +136,14 @@ Theorem C12_mpd : forall oldTS newTS stl,
 Proof. exact changeTimelineTimescale_shape. Qed.
 Print Assumptions C12_mpd.
 
+(** On the millisecond grid the k-th segment of an S element (t, d, r) of the subtitle timeline
+    starts where the k-th video segment starts, in ms (exact twins; see C12_ms_grid_partial). *)
+Theorem C12_mpd_grid_partial : forall t d n ts, 0 < ts -> 0 <= t -> 0 <= d -> 0 <= n ->
+  (t * 1000) mod ts = 0 -> (d * 1000) mod ts = 0 ->
+  rep2SubsTime_exact (t + n * d) ts = rep2SubsTime_exact t ts + n * rep2SubsTime_exact d ts.
+Proof. exact exact_grid_linear. Qed.
+Print Assumptions C12_mpd_grid_partial.
+
 (** Non-vacuity: segment 45 of testpic_2s (video 8100000/90000, 2 s), default cue duration. *)
 Example C12_example :
   let r := {| r_nr := 45; r_time := 8100000; r_dur := 180000; r_ts := 90000 |} in
